@@ -1,6 +1,7 @@
 package chacha20poly1305
 
 import (
+	tinkpb "github.com/tink-crypto/tink-go/v2/proto/tink_go_proto"
 	xc "golang.org/x/crypto/chacha20poly1305"
 
 	"github.com/tink-crypto/tink-go/v2/insecuresecretdataaccess"
@@ -54,4 +55,19 @@ func VerifH_chacha20poly1305_arbitrary() {
 func VerifH_c19_chacha20poly1305() {
 	a, _, _ := build()
 	verifh.CheckAEADNoWrite(a)
+}
+
+func VerifH_serial_chacha20poly1305() {
+	kind := verifrt.Choice("variant", 3)
+	v := [...]Variant{VariantTink, VariantCrunchy, VariantNoPrefix}[kind]
+	pk := kind
+	id := verifrt.Uint32("id")
+	if kind == 2 {
+		id, pk = 0, 3
+	}
+	params, err := NewParameters(v)
+	verifrt.Assert(err == nil, "NewParameters")
+	k, err := NewKey(secretdata.NewBytesFromData(verifrt.Bytes("key", 32), insecuresecretdataaccess.Token{}), id, params)
+	verifrt.Assert(err == nil, "NewKey")
+	verifh.CheckKeyRoundTrip(k, &keySerializer{}, &keyParser{}, &parametersSerializer{}, &parametersParser{}, pk, id, typeURL, tinkpb.KeyData_SYMMETRIC)
 }
